@@ -1,0 +1,19 @@
+//go:build verif
+// +build verif
+
+package utils
+
+import (
+	"github.com/satori/go.uuid"
+)
+
+// VerifCreate registers a notification channel under a caller-chosen id, so
+// that the simulation harness can observe the outcome a replica reports for a
+// given log entry (build tag "verif" only).
+func (this *Notificator) VerifCreate(id uuid.UUID, bufSize int) <-chan interface{} {
+	c := make(chan interface{}, bufSize)
+	this.mu.Lock()
+	this.chans[id] = c
+	this.mu.Unlock()
+	return c
+}
